@@ -80,6 +80,25 @@ func c05rString(r *rand.Rand, alphabet string, min int) string {
 	}
 }
 
+func c05rHasByteSlice(t *g.Type) bool {
+	switch t.K {
+	case g.Slice:
+		if t.Elem.K == g.Uint8 {
+			return true
+		}
+		return c05rHasByteSlice(t.Elem)
+	case g.Ptr, g.Map:
+		return c05rHasByteSlice(t.Elem)
+	case g.Struct:
+		for _, f := range t.Fields {
+			if c05rHasByteSlice(f.T) {
+				return true
+			}
+		}
+	}
+	return false
+}
+
 type c05rReq struct {
 	shape   *g.Shape
 	pattern string
@@ -88,7 +107,7 @@ type c05rReq struct {
 
 func c05rShape(r *rand.Rand, idx int) *c05rReq {
 	req := &c05rReq{parts: map[string]string{}}
-	js := g.RandShape(r, g.Cfg{TagKey: "json", MaxDepth: 2, NoEnv: true, NoDep: true, NoUntagged: true, NoStringOnString: true})
+	js := g.RandShape(r, g.Cfg{TagKey: "json", MaxDepth: 2, NoEnv: true, NoDep: true, NoUntagged: true, NoStringOnString: true, NoDurationOptions: true})
 	var fields []*g.Field
 	pattern := fmt.Sprintf("/c05/s%d", idx)
 	for i, n := 0, r.Intn(3); i < n; i++ {
@@ -120,6 +139,9 @@ func c05rShape(r *rand.Rand, idx int) *c05rReq {
 	}
 	if r.Intn(5) != 0 {
 		for _, f := range js.Root.Fields {
+			if c05rHasByteSlice(f.T) {
+				continue // encoding/json sends []uint8 as a base64 string: transport encoding, not asserted
+			}
 			if f.Anonymous {
 				continue // mapping.Marshal does not flatten embedded structs of the request struct itself (nested ones travel through encoding/json): not asserted
 			}
